@@ -19,6 +19,7 @@ import vlib
 
 CORPUS = os.path.join(vlib.VERIF, "corpus", "stats2")
 ACF_TOL = 1e-9
+ACF_REL_TOL = 1e-6      # for the transformed half of `acfrel` (offsets up to 1e7 times the spread: cancellation in m1)
 WRAP = ["-Wl,--wrap=malloc,--wrap=free"]
 
 
@@ -87,10 +88,17 @@ def compare_line(op, c_line, m_line):
     if tag in ("acf", "tacf", "acfrel"):
         if len(c) != len(m):
             return "different length"
+        second = False
         for a, b in zip(c[1:], m[1:]):
+            if a == "|" or b == "|":
+                second = True
+                if a != b:
+                    return "differs"
+                continue
+            tol = ACF_REL_TOL if (tag == "acfrel" and second) else ACF_TOL
             if isinstance(a, Fraction) and isinstance(b, Fraction):
-                if abs(float(a) - float(b)) > ACF_TOL * max(1.0, abs(float(b))):
-                    return "differs beyond tolerance %g: %r vs %r" % (ACF_TOL, float(a), float(b))
+                if abs(float(a) - float(b)) > tol * max(1.0, abs(float(b))):
+                    return "differs beyond tolerance %g: %r vs %r" % (tol, float(a), float(b))
             elif a != b:
                 return "differs"
         return None
@@ -265,6 +273,18 @@ def monitor(lean_exe, lines, c_out):
     res = []
     jl = [(i, what, j) for i, what, j in qs if j is not None]
     res += [(i, what, False) for i, what, j in qs if j is None]
+    # shift / scale invariance (labelled test, tolerance ACF_REL_TOL): the implementation's coefficients of the
+    # transformed data against its own coefficients of the original data.  Cases where the model itself says the
+    # two differ (variance crossing the absolute threshold = known finding) never get here (filter_case).
+    for i, (l, c) in enumerate(zip(lines, c_out)):
+        if l.split()[0] == "acfrel" and c.startswith("acfrel") and "|" in c:
+            a, b = c[len("acfrel"):].split("|", 1)
+            av, bv = [num(t) for t in a.split()], [num(t) for t in b.split()]
+            okv = len(av) == len(bv) and all(isinstance(x, Fraction) and isinstance(y, Fraction) and
+                                              abs(float(x) - float(y)) <= ACF_REL_TOL * max(1.0, abs(float(x)))
+                                              for x, y in zip(av, bv))
+            res.append((i, "autocorrelation of the data mapped x -> scale*x + shift (second list) against that of the "
+                           "original data (first list): not invariant; acfrel", okv))
     if jl:
         def conv(t):
             if t == "|":
@@ -423,6 +443,12 @@ def gen_dataset(rng, n, pattern, init, all_bins=False):
         for lag in lags:
             L.append("acf %d" % lag)
         L.append("acfrel %d %s %s" % (lags[0], rat(Fraction(2) ** rng.randint(-3, 6)), rat(rng.randint(-20, 20))))
+        # offsets that are huge compared with the spread (mean / standard deviation beyond 3e4), all exact in double
+        if pattern != "wide":
+            big = [(Fraction(1), Fraction(100000 * rng.choice((1, -1, 3)))), (Fraction(1), Fraction(-10000000)),
+                   (Fraction(1, 128), Fraction(1000)), (Fraction(1, 1024), Fraction(-4096)), (Fraction(4), Fraction(2 ** 30))]
+            for sc_, sh_ in rng.sample(big, 2):
+                L.append("acfrel %d %s %s" % (lags[min(1, len(lags) - 1)], rat(sc_), rat(sh_)))
         if n <= 40:
             L.append("corr %d" % lags[-1])
     L += ["sort", "dump", "median"]
@@ -431,7 +457,7 @@ def gen_dataset(rng, n, pattern, init, all_bins=False):
     return L
 
 
-WEIGHTS = ["unit", "random", "zeros", "dominant-first", "dominant-any", "allzero", "heavy-tail"]
+WEIGHTS = ["unit", "random", "zeros", "dominant-first", "dominant-any", "allzero", "heavy-tail", "dominant-max"]
 
 
 def gen_series(rng, n, pattern, wpat, init, all_bins=False):
@@ -449,7 +475,7 @@ def gen_series(rng, n, pattern, wpat, init, all_bins=False):
         d = [rng.choice((1, 1, 1, 2, 50)) for _ in range(n)]
     else:
         d = [rng.randint(0, 3) for _ in range(n)]
-        k = xs.index(min(xs)) if wpat == "dominant-first" else rng.randrange(n)
+        k = xs.index(min(xs)) if wpat == "dominant-first" else (xs.index(max(xs)) if wpat == "dominant-max" else rng.randrange(n))
         d[k] = sum(d) + rng.randint(1, 20)          # one sample holds more than half of the total duration
     t0 = rng.randint(-5, 5)
     ts = [t0]
@@ -474,7 +500,12 @@ def gen_series(rng, n, pattern, wpat, init, all_bins=False):
         else:
             L += hist_ops(rng, xs, "thist", False)[:1]
         L.append("tacf %d" % min(cnt - 1, rng.randint(1, 6)))
-    L += ["tsortx", "tdump", "tsortt", "tdump", "tmedian"]
+    # sort by value and THEN copy / take the median / summary / histogram: the last slot now holds the largest x with
+    # its real duration (a time-ordered series always ends in a zero weight); then sort back by time and ask again
+    L += ["tsortx", "tdump", "tcopy", "tmedian", "tfivenum"]
+    if cnt >= 2:
+        L += hist_ops(rng, xs, "thist", False)[:2]
+    L += ["tsortt", "tdump", "tmedian"]
     # copy last (a defect in the copy must not hide the answers above); the copy is then added to,
     # now and then far enough to cross the next doubling threshold
     L.append("tcopy")
